@@ -10,6 +10,7 @@ EXTENDS AnyVec, Json, TLC, TLCExt
 CONSTANTS Alpha,      \* set of enabled operation names
           MaxLen, MaxLenB, MaxExt, MaxOut, MaxRepl, MaxIters,
           OneHandle,  \* TRUE: at most one vector has an outstanding handle at a time (bounds the product space)
+          SinkKinds,  \* value-sink kinds explored: subset of {"drop","ext","push","insert","forget"}
           Srcs,       \* value-source kinds for push/insert/splice: subset of {"wrapper","raw","typed"}
           Forms       \* RangeBounds forms: subset of {"x..y","x..=y","..y","..=y","x..","..","x<..y","x<..=y","x<.."}
 
@@ -28,7 +29,8 @@ S(k, to, i) == [k |-> k, to |-> to, i |-> i]
 Len0(x) == Len(st.v[x].el)
 CapOf(x) == IF x = "a" THEN MaxLen ELSE MaxLenB    \* exploration bound on the length of each vector
 
-Sinks(x, kinds) ==
+Sinks(x, kinds0) ==
+  LET kinds == kinds0 \cap (SinkKinds \cup {"keep"}) IN
   {S(k, "", 0) : k \in kinds \cap ({"drop", "forget", "keep"} \cup IF Len(st.ext) < MaxExt THEN {"ext"} ELSE {})}
   \cup (IF "push" \in kinds
         THEN {S("push", w, 0) : w \in {w \in Vecs \ {x} : Quiet(st, w) /\ (Len0(w) < CapOf(w) \/ Cfg.fixed)}} ELSE {})
@@ -36,7 +38,7 @@ Sinks(x, kinds) ==
         THEN UNION {{S("insert", w, i) : i \in 0..(Len0(w) + 1)} :
                     w \in {w \in Vecs \ {x} : Quiet(st, w) /\ (Len0(w) < CapOf(w) \/ Cfg.fixed)}} ELSE {})
 
-AllSinks == {"drop", "ext", "push", "insert", "forget"}
+AllSinks == SinkKinds
 MutCount == Cardinality({i \in 1..Len(AllElems(st)) : AllElems(st)[i][2] = 1})
 
 (* Every generated transition gets a fresh number from a TLC register (run with -workers 1).  Since the state TLC   *)
